@@ -6,6 +6,10 @@ func init() {
 			Reach:       []string{"job-failed", "stopped-with-jobs-outstanding", "pending-job-reports-shutdown"},
 			Assumptions: []string{"Done is called on every job before Stop (a job whose task channel is never closed blocks the queue by design)", "goroutines switch only at synchronisation operations (channel, select, mutex, WaitGroup, atomic): sound for data-race-free code"},
 			Outside:     []string{"more than 2 workers, 2 jobs, maxTasks tasks per job", "schedules with more preemptions than the stated bound (switches at blocking operations are unbounded)", "tasks that panic"}},
+		{Name: "backlog", Pkg: "internal/workers", Files: []string{"workers/c26_workers.go"}, Entry: "VerifC26Backlog", Sched: true, Preempt: [2]int{1, 2},
+			Reach:       []string{"all-jobs-submitted"},
+			Assumptions: []string{"each job is submitted completely (tasks + Done) before the next NewJob, so a NewJob that waits for a backlog slot can always be served", "goroutines switch only at synchronisation operations"},
+			Outside:     []string{"more than 2 workers, 3 jobs, 2 tasks per job, job backlogs above 1", "schedules with more preemptions than the stated bound"}},
 		{Name: "serial", Pkg: "internal/workers", Files: []string{"workers/c26_workers.go"}, Entry: "VerifC26Serial", Sched: true},
 	}})
 }
